@@ -454,7 +454,29 @@ func (c MWCase) brief() string {
 }
 
 // CheckMW decides the middleware part of the property for one configuration and its requests.
+// rawFF stands for the single byte 0xFF in the option texts and request paths of a case (a case travels as JSON, which
+// cannot carry a string that is not UTF-8); decoded() puts the byte back before anything is built.
+const rawFF = "⟦ff⟧"
+
+func unraw(s string) string { return strings.ReplaceAll(s, rawFF, "\xff") }
+
+func unrawReqs(in []Req) []Req {
+	out := make([]Req, len(in))
+	for i, q := range in {
+		q.Path = unraw(q.Path)
+		out[i] = q
+	}
+	return out
+}
+
+func (c MWCase) decoded() MWCase {
+	c.BasePath, c.Path, c.Document = unraw(c.BasePath), unraw(c.Path), unraw(c.Document)
+	c.Reqs = unrawReqs(c.Reqs)
+	return c
+}
+
 func CheckMW(c MWCase) *kit.Violation {
+	c = c.decoded()
 	if c.Template < 0 || c.Template >= len(Templates) {
 		return kit.Failf("HARNESS: unknown template %d", c.Template)
 	}
@@ -569,7 +591,8 @@ func specLocation(specURL string) (string, bool) {
 	if err != nil {
 		return "", false
 	}
-	if u.IsAbs() && u.Host != "" {
+	if u.Host != "" {
+		// an absolute URL, or a network-path reference ("//host/dir/doc.json"): the path on that host
 		return path.Clean("/" + u.Path), true
 	}
 	if !u.IsAbs() && u.Host == "" && strings.HasPrefix(u.Path, "/") {
